@@ -13,6 +13,16 @@ CLAIMED = {
             "game and no stale pre-state makes a computed interval miss the true value, invert, or alter a known row. Bounded by n and the K list; "
             "exact reals.",
             "Trusts: z3, the symx numpy-object-array carrier (validated each run by concrete cross-checks against the unpatched package), C17 for closure of valid states."),
+    "C02": ("§C02", "Per listed K and both computers z3 shows, for all superadditive games, that every computed bound equals the definition-level closed form "
+            "(best partition into known blocks; min over known supersets) and that explicit superadditive completions built from the outputs attain each bound "
+            "(lower-bound game; per-coalition upper witness). Bounded by n<=5 and the K list.",
+            "Trusts: z3, symx carrier (cross-checked per run), harness-side reference terms written from the property text."),
+    "C03": ("§C03", "For all real inputs (no class assumption) and independent stale states z3 shows the two computers' result terms equal, per listed K, "
+            "n=2..8, and along call sequences mixing player counts / game objects that start from a pristine interpreter state (forked per task).",
+            "Trusts: z3, symx carrier; equality over the reals (bit-identity follows when sums are exact). Float-rounding equality on inexact inputs is outside."),
+    "C08": ("§C08", "Per computer and listed K, z3 shows results are independent of two arbitrary stale pre-states, idempotent, equal along different reveal orders "
+            "with a reveal/un-reveal detour, and that ICG_Gym.step followed by unstep restores table, state, reward, mask, steps and done term-for-term.",
+            "Trusts: z3, symx carrier, generator stub; sam_apx_100/1000 only under SAM(v) at n=3."),
 }
 
 NOT_YET = {}
